@@ -46,9 +46,25 @@ def _scan(skip_tids):
     return out
 
 
+POLLERS = set()  # native ids of harness threads that poll (they are never part of the verdict)
+
+
+class polling:
+    """Context manager: the current thread is a harness poller."""
+
+    def __enter__(self):
+        self.tid = threading.get_native_id()
+        self.added = self.tid not in POLLERS
+        POLLERS.add(self.tid)
+
+    def __exit__(self, *a):
+        if self.added:
+            POLLERS.discard(self.tid)
+
+
 def quiescent(extra_skip=(), gap=0.002, director=None):
     """One double scan.  True iff nobody else is runnable or moved."""
-    skip = {threading.get_native_id()} | set(extra_skip)
+    skip = {threading.get_native_id()} | set(extra_skip) | set(POLLERS)
     a = _scan(skip)
     time.sleep(gap)
     b = _scan(skip)
@@ -123,6 +139,11 @@ def await_or_deadlock(is_done, director, log, wall_timeout=30.0, checks=3, check
     quiescent on ``checks`` consecutive checks ``check_gap`` apart with the
     event counter frozen.
     """
+    with polling():
+        return _await_or_deadlock(is_done, director, log, wall_timeout, checks, check_gap, poll)
+
+
+def _await_or_deadlock(is_done, director, log, wall_timeout, checks, check_gap, poll):
     end = time.monotonic() + wall_timeout
     while time.monotonic() < end:
         if is_done():
